@@ -22,7 +22,7 @@ func init() {
 			"(a2) a collection is not mutated after it has been published into a field; (b) a field written after construction that no access locks is reachable from one sequential thread root only; " +
 			"(d) methods called on plain data objects held in guarded fields do not write through the receiver unless the caller holds the write lock; (e) collections shared by the instances of a fan-out goroutine are written and read only with a lock held; " +
 			"(f) every ExecutionConfigurator.ProposerConfig returns a fresh object (callers modify it). " +
-			"Added with the third seeding round: (g) package-level collections written after init are accessed only under the package-level mutex held at their other accesses; (h) collections obtained from a duty's getters are never changed in place. Added with the fourth seeding round: (i) a duty captured by a scheduled job is not written by the scheduling function afterwards. Not decided: happens-before through channels, WaitGroups and atomics beyond these shapes, atomicity across two critical sections, hand-off objects (duties, responses) whose exclusive ownership moves between goroutines, races inside libraries, library-created concurrency (an event stream delivering on several goroutines).",
+			"Added with the third seeding round: (g) package-level collections written after init are accessed only under the package-level mutex held at their other accesses; (h) collections obtained from a duty's getters are never changed in place. Added with the fourth seeding round: (i) a duty captured by a scheduled job is not written by the scheduling function afterwards. Added with the seventh seeding round: (a2, extended) a map read from a field that is replaced as a whole is never changed in place without a lock. Not decided: happens-before through channels, WaitGroups and atomics beyond these shapes, atomicity across two critical sections, hand-off objects (duties, responses) whose exclusive ownership moves between goroutines, races inside libraries, library-created concurrency (an event stream delivering on several goroutines).",
 		Rule: "lock sets (must-hold, per instruction, plus the locks held at every call site of lock-free helpers) × field-access enumeration over SSA × thread roots from the VTA call graph",
 		Assumptions: []string{
 			"a lock is identified by (owner struct type, field): two instances of one service type are not distinguished",
